@@ -245,6 +245,11 @@ class FST:
             for transition in pair:
                 state_q = transition[0]
                 symbol = transition[1]
+                # A terminal of the grammar is a symbol, not a list
+                if not symbol:
+                    symbol = "epsilon"
+                elif len(symbol) == 1:
+                    symbol = symbol[0]
                 new_rules.append(EndRule(str((state_p, terminal, state_q)),
                                          symbol))
 
